@@ -536,7 +536,8 @@ ppointer c05_body(ppointer arg) {
   for (int k = 0; k < g.nkeys; k++) if (g.cur[(size_t)ti][(size_t)k]) g.cur[(size_t)ti][(size_t)k]->expect_destroy = g.key_has_notifier[(size_t)k] != 0;
   g.body_done[(size_t)ti] = true;
   if (sp.exit_call) p_uthread_exit(sp.code);
-  return NULL;
+  // "0 if its function simply returned" - whatever pointer it returns (odd threads return a non-NULL one)
+  return (ti % 2) ? (ppointer)(psize)(0x7f001000u + (unsigned)sp.code * 16 + (unsigned)ti) : NULL;
 }
 
 // handle lifetime through the tracking allocator (installed via p_mem_set_vtable): the block returned by
@@ -567,9 +568,31 @@ void run_child(const Case &c) {
     g.kinds = c.objs;
     size_t n = g.kinds.size();
     g.mutexes.resize(n); g.spins.resize(n); g.holders.assign(n, 0); g.recs.resize(n); g.sections.assign(n, 0); g.epoch.assign(n, 0); g.in_call.assign(n, 0);
+    // kind 'S': a spinlock that receives a redundant unlock while it is free and nobody else exists yet ("It is also safe to call this
+    // routine on an unlocked spinlock", pspinlock.h): afterwards it must still be a free lock - trylock succeeds, the word is 0
+    vector<bool> preunlock(n, false);
+    for (size_t i = 0; i < n; i++) if (g.kinds[i] == 'S') { g.kinds[i] = 's'; preunlock[i] = true; }
     for (size_t i = 0; i < n; i++) { if (g.kinds[i] == 'm') g.mutexes[i] = p_mutex_new(); else g.spins[i] = p_spinlock_new(); }
     vs::begin(c.sched, false, 0);
     vs::S().point_hooks.push_back(c01_hook);
+#if defined(VERIF_CFG_ATOMIC_c11) || defined(VERIF_CFG_ATOMIC_sync)
+    // (not for the sim model: there the call is pthread_mutex_unlock on an unlocked mutex, which POSIX leaves undefined although the
+    //  header calls it safe - observed, not asserted)
+    for (size_t i = 0; i < n; i++) if (preunlock[i]) {
+      g.in_call[i]++;
+      if (!API("p_spinlock_unlock", p_spinlock_unlock(g.spins[i]))) child_fail("unlock-failed", "p_spinlock_unlock on a free spinlock returned FALSE");
+      g.in_call[i]--;
+      c01_hook();
+      g.in_call[i]++;
+      if (!API("p_spinlock_trylock", p_spinlock_trylock(g.spins[i]))) child_fail("trylock-free", "p_spinlock_trylock failed on a free, uncontended spinlock (after a redundant unlock, which the header documents as safe)");
+      g.holders[i] = 1; g.in_call[i]--;
+      c01_hook();
+      g.in_call[i]++; g.holders[i] = 0;
+      if (!API("p_spinlock_unlock", p_spinlock_unlock(g.spins[i]))) child_fail("unlock-failed", "p_spinlock_unlock returned FALSE");
+      g.in_call[i]--;
+      c01_hook();
+    }
+#endif
     vector<pthread_t> th(c.threads.size());
     for (size_t i = 0; i < c.threads.size(); i++) vs_pthread_create(&th[i], NULL, c01_thread, (void *)&c.threads[i]);
     vs::finish_all();
@@ -784,7 +807,7 @@ rc::Gen<Case> genC01() {
     auto round = gen::map(gen::tuple(gen::weightedElement<char>({{6, 'l'}, {3, 't'}, {1, 'y'}}), rng(0, L), rng(1, 3), rng(0, 4), rng(0, L), rng(1, 3)), [](const std::tuple<char, int, int, int, int, int> &r) {
       Round x; x.mode = std::get<0>(r); x.lock = std::get<1>(r); x.work = std::get<2>(r); x.has_inner = std::get<3>(r) == 0 && x.mode != 'y'; x.inner_lock = std::get<4>(r); x.inner_work = std::get<5>(r); if (x.inner_lock == x.lock) x.has_inner = false; return x; });
     auto thread = gen::resize(6, gen::container<vector<Round>>(round));
-    return gen::map(gen::tuple(gen::container<vector<vector<Round>>>((size_t)T, thread), gen::container<vector<char>>((size_t)L, gen::element('m', 's')), genScheduleLong()),
+    return gen::map(gen::tuple(gen::container<vector<vector<Round>>>((size_t)T, thread), gen::container<vector<char>>((size_t)L, gen::element('m', 's', 'm', 's', 'S')), genScheduleLong()),
                     [](const std::tuple<vector<vector<Round>>, vector<char>, vector<uint8_t>> &x) { Case c; c.prop = "C01"; c.threads = std::get<0>(x); c.objs = std::get<1>(x); c.sched = std::get<2>(x); return c; });
   });
 }
@@ -904,6 +927,7 @@ vector<Case> shapes_for(const string &prop) {
     v.push_back(shape("dsched C01\nobj s\nT l0.1.- l0.1.-\nT l0.1.- t0.1.-\n"));
     v.push_back(shape("dsched C01\nobj m s\nT l0.1.-+t1.1 l1.1.-\nT l1.1.-+t0.1 t0.1.-\n"));
     v.push_back(shape("dsched C01\nobj s\nT t0.1.- t0.1.-\nT l0.2.-\nT t0.1.-\n"));
+    v.push_back(shape("dsched C01\nobj S\nT l0.1.- t0.1.-\nT t0.1.- l0.1.-\n"));
   } else if (prop == "C02") {
     v.push_back(shape("dsched C02\nobj w\nT x0.1.-\nT r0.1.-\nT r0.1.-\n"));
     v.push_back(shape("dsched C02\nobj w\nT x0.1.- x0.1.-\nT x0.1.-\nT r0.1.-\n"));
